@@ -401,6 +401,8 @@ type c16Call struct {
 	Out      any    `json:"out,omitempty"`
 	OutBad   bool   `json:"out_bad,omitempty"`
 	OwnText  bool   `json:"own_content,omitempty"`
+	Shape    string `json:"result_shape,omitempty"` // what the handler returns besides its output: "" nil | own | empty (&CallToolResult{}) | meta-only | canned (one result object reused by every call) | prefilled (StructuredContent set by the handler itself)
+	MRTR     bool   `json:"mrtr,omitempty"`         // the handler first asks for the client's roots (InputRequests) and answers on the second round
 }
 
 func runC16(c *vh.Case) {
@@ -430,11 +432,26 @@ func runC16(c *vh.Case) {
 	var mu sync.Mutex
 	var invoked int
 	var received string
+	var receivedAll []string
 	var cur c16Call
 	server := mcp.NewServer(&mcp.Implementation{Name: "s", Version: "1"}, nil)
-	mkResult := func() *mcp.CallToolResult {
-		if cur.OwnText {
+	canned := &mcp.CallToolResult{Content: []mcp.Content{&mcp.TextContent{Text: "own content"}}}
+	mkResult := func(req *mcp.CallToolRequest) *mcp.CallToolResult {
+		receivedAll = append(receivedAll, received)
+		if cur.MRTR && len(req.Params.InputResponses) == 0 {
+			return &mcp.CallToolResult{InputRequests: mcp.InputRequestMap{"roots": &mcp.ListRootsParams{}}}
+		}
+		switch cur.Shape {
+		case "own":
 			return &mcp.CallToolResult{Content: []mcp.Content{&mcp.TextContent{Text: "own content"}}}
+		case "empty":
+			return &mcp.CallToolResult{}
+		case "meta-only":
+			return &mcp.CallToolResult{Meta: mcp.Meta{"trace": "t-1"}}
+		case "canned":
+			return canned
+		case "prefilled":
+			return &mcp.CallToolResult{Content: []mcp.Content{&mcp.TextContent{Text: "own content"}}, StructuredContent: map[string]any{"stale": true}}
 		}
 		return nil
 	}
@@ -445,7 +462,7 @@ func runC16(c *vh.Case) {
 			invoked++
 			b, _ := json.Marshal(a)
 			received = string(b)
-			return mkResult(), c16Out{Echo: a.Name, Total: a.Count + len(a.Tags)}, nil
+			return mkResult(req), c16Out{Echo: a.Name, Total: a.Count + len(a.Tags)}, nil
 		})
 	} else {
 		tool := &mcp.Tool{Name: "t", InputSchema: in.toMap()}
@@ -458,10 +475,11 @@ func runC16(c *vh.Case) {
 			invoked++
 			b, _ := json.Marshal(a)
 			received = string(b)
-			return mkResult(), cur.Out, nil
+			return mkResult(req), cur.Out, nil
 		})
 	}
 	client := mcp.NewClient(&mcp.Implementation{Name: "c", Version: "1"}, nil)
+	client.AddRoots(&mcp.Root{URI: "file:///r", Name: "r"})
 	pair, err := vhm.Connect(ctx, vhm.PairOpts{Kind: "mem", Server: server, Client: client, ClientVersion: r.Choose("2025-06-18", "2025-11-25")})
 	if err != nil {
 		c.Inconclusive("connect: %v", err)
@@ -478,7 +496,21 @@ func runC16(c *vh.Case) {
 	}()
 	for k, n := 0, r.Range(1, 5); k < n && !c.Violated(); k++ {
 		args := genValue(r, in).(map[string]any)
-		call := c16Call{OwnText: r.Chance(1, 3)}
+		call := c16Call{}
+		switch x := r.Intn(12); {
+		case x < 4:
+			call.Shape = "own"
+		case x < 5:
+			call.Shape = "empty"
+		case x < 6:
+			call.Shape = "meta-only"
+		case x < 7:
+			call.Shape = "canned"
+		case x < 8:
+			call.Shape = "prefilled"
+		}
+		call.OwnText = call.Shape == "own" || call.Shape == "canned" || call.Shape == "prefilled"
+		call.MRTR = r.Chance(1, 6)
 		if r.Bool() {
 			call.Mutation, args = mutate(r, in, args)
 		}
@@ -502,13 +534,18 @@ func runC16(c *vh.Case) {
 		}
 		mu.Lock()
 		cur = call
-		invoked, received = 0, ""
+		invoked, received, receivedAll = 0, "", nil
 		mu.Unlock()
 		calls = append(calls, call)
 		res, err := cs.CallTool(ctx, &mcp.CallToolParams{Name: "t", Arguments: args})
 		mu.Lock()
 		nInv, recv := invoked, received
+		recvAll := append([]string(nil), receivedAll...)
 		mu.Unlock()
+		wantInv := 1
+		if call.MRTR {
+			wantInv = 2 // asked for input, then re-invoked with the client's answer
+		}
 		want := in.applyDefaults(deepCopy(args))
 		valid := in.validate(want)
 		argsJSON, _ := json.Marshal(args)
@@ -529,8 +566,8 @@ func runC16(c *vh.Case) {
 			continue
 		}
 		accepted++
-		if nInv != 1 {
-			c.Violate("valid-input-rejected", "arguments %s are valid under %s (after defaults: %s), but the handler ran %d time(s); result %s err %v", argsJSON, vh.JSON(in), vh.JSON(want), nInv, vh.JSON(res), err)
+		if nInv != wantInv {
+			c.Violate("valid-input-rejected", "arguments %s are valid under %s (after defaults: %s), but the handler ran %d time(s), expected %d; result %s err %v", argsJSON, vh.JSON(in), vh.JSON(want), nInv, wantInv, vh.JSON(res), err)
 			return
 		}
 		wantJSON, _ := json.Marshal(want)
@@ -540,10 +577,13 @@ func runC16(c *vh.Case) {
 			json.Unmarshal(wantJSON, &a)
 			wantJSON, _ = json.Marshal(a)
 		}
-		if !jsonEqual([]byte(recv), wantJSON) {
-			c.Violate("handler-input-differs", "handler received %s, expected the arguments with defaults applied %s (sent %s)", recv, wantJSON, argsJSON)
-			return
+		for round, rv := range recvAll {
+			if !jsonEqual([]byte(rv), wantJSON) {
+				c.Violate("handler-input-differs", "handler received %s on round %d, expected the arguments with defaults applied %s (sent %s)", rv, round+1, wantJSON, argsJSON)
+				return
+			}
 		}
+		_ = recv
 		// ---- output
 		if out == nil {
 			if err != nil || res.IsError {
